@@ -62,6 +62,7 @@ def _run(cfg, wire, spec, states, probes):
 
     fed = reader_rig.feed(reader, wire, spec, probe)
     if fed.error is not None:
+        probes["_raised"] = f"{type(fed.error[1]).__name__} in read() call #{fed.error[0]}"
         return None
     return [reader_rig.hdlc_sig(f) for f in fed.messages]
 
@@ -74,17 +75,30 @@ def execute(sc):
     ref = _run(sc["cfg"], wire, {"m": "whole"}, states, probes)
     viol = []
     void = ref is None
+    tag = f"cfg={'S' if stuffing else 's'}{'A' if abort else 'a'}"
+    if void:
+        # An exception is C14's business - unless it depends on the fragmentation: the same stream delivered another way
+        # is read without one. (The other direction, a fragmentation that raises while whole-stream delivery does not,
+        # is judged below.)
+        why = probes.pop("_raised", "?")
+        for spec in sc["cutsets"]:
+            got = _run(sc["cfg"], wire, spec, states, probes)
+            if got is not None:
+                viol.append({"sig": f"C06/D {tag} raised-under-one-fragmentation-only {why.split(' ')[0]}", "detail": f"whole-stream delivery raised {why}; fragmentation {str(spec)[:80]} returned {len(got)} frames", "spec": spec})
+                void = False
+                break
+        probes.pop("_raised", None)
     compared = 0
     specs = list(sc["cutsets"])
     if sc.get("singles"):
         specs += [{"m": "list", "at": [p]} for p in range(1, len(wire))]
         probes["all_single_cuts"] = 1
-    tag = f"cfg={'S' if stuffing else 's'}{'A' if abort else 'a'}"
-    if not void:
+    if not void and not viol:
         for spec in specs:
             got = _run(sc["cfg"], wire, spec, states, probes)
             if got is None:
-                void = True
+                why = probes.pop("_raised", "?")
+                viol.append({"sig": f"C06/D {tag} raised-under-one-fragmentation-only {why.split(' ')[0]}", "detail": f"fragmentation {str(spec)[:80]} raised {why}; whole-stream delivery returned {len(ref)} frames", "spec": spec})
                 break
             compared += 1
             if got != ref:
